@@ -1,8 +1,15 @@
 package __PKG__
 
-import "github.com/hashicorp/go-kms-wrapping/v2/aead"
+import (
+	wrapping "github.com/hashicorp/go-kms-wrapping/v2"
+	"github.com/hashicorp/go-kms-wrapping/v2/aead"
+)
 
 // verifKey: key material for a wrapper (natively stretched to 32 bytes); verifCipherEq: two "encrypted:" values carry
 // the same plaintext under w (natively by decrypting, because AES-GCM nonces are random; symbolically term equality)
 func verifKey(s string) []byte
 func verifCipherEq(w *aead.Wrapper, a, b string) bool
+
+// verifFaulty: the wrapper handed to the filter. Symbolically the wrapper itself (Encrypt may fail as a function of key and
+// plaintext); natively, when the replayed run has Encrypt fail somewhere, a decorator that fails at exactly those calls
+func verifFaulty(w *aead.Wrapper) wrapping.Wrapper { return w }
